@@ -131,6 +131,7 @@ def run_live(shard, rec, B):
         if t % 5 == 0:
             compose_history(rec, B, rng, N, named)
             wider_register(rec, B, rng, N, named)
+            moved_gate(rec, B, rng, N)
         circ = CC.new_circuit(B, cls, N)
         prog, inserted = [], []
         hist = []
@@ -182,6 +183,17 @@ def run_live(shard, rec, B):
                 run_c = circ2
             else:
                 run_c = circ
+            if N >= 2 and rng.integers(3) == 0:
+                # a call the library may refuse (operand on fewer qubits than the circuit needs): whatever happens to that
+                # operand, the circuit itself must go on acting as before
+                small = B.PauliList(gen.rand_list(rng, 2, N - 1), rng.integers(0, 4, 2))
+                how = "forward" if rng.integers(2) else "backward"
+                try:
+                    getattr(run_c, how)(small)
+                    rec.bump("ill_sized_calls_answered")
+                except Exception as e:
+                    rec.refusal("ill-sized operand: " + type(e).__name__)
+                hist.append(["ill-sized " + how])
             desc = {"N": N, "cls": cls, "program": [PR.describe(x) for x in prog][-12:], "history": hist[-10:], "stage": stage}
             if run_c is circ:
                 bad, pos = PR.check_layering(circ, inserted)
@@ -253,6 +265,14 @@ def compose_history(rec, B, rng, N, named):
     E, _ = CC.build(B, "CliffordCircuit", pe, N) if pe else (CC.new_circuit(B, "CliffordCircuit", N), [])
     Bc, _ = CC.build(B, "CliffordCircuit", pb, N)
     desc = {"N": N, "E": [PR.describe(s)["kind"] for s in pe], "B": [PR.describe(s) for s in pb], "then": [PR.describe(s) for s in more]}
+    # the argument may itself have been compiled (whole, or layer by layer) before it is composed into E
+    pre = ("none", "circuit", "layers")[int(rng.integers(3))]
+    desc["argument_compiled"] = pre
+    if pre == "circuit":
+        Bc.compile(N)
+    elif pre == "layers":
+        for layer in Bc.layers_forward():
+            layer.compile(N)
     ok, _ = rec.attempt("compose.history", desc, lambda: E.compose(Bc))
     if not ok:
         return
@@ -291,3 +311,63 @@ def wider_register(rec, B, rng, N, named):
         if ok:
             lg, lp = B.gsps(obj)
             rec.check("wider." + comp, np.array_equal(lg, eg) and np.array_equal(lp, ep % 4), dict(desc, comp=comp), True)
+
+
+def moved_gate(rec, B, rng, N):
+    """a local gate of a compiled circuit is moved to other free qubits of its layer (gate.qubits is a plain public attribute) and
+    the circuit is recompiled as documented: the action is the product over the layer structure as it now stands."""
+    if N < 3:
+        return
+    prog = PR.rand_program(rng, N, int(rng.integers(2, 7)), kinds=["setgen", "fmap", "bmap"], named=False)
+    circ, gates = CC.build(B, "CliffordCircuit", prog, N)
+    comp = ("circuit", "layers")[int(rng.integers(2))]
+
+    def compile_():
+        if comp == "circuit":
+            circ.compile(N)
+        else:
+            for layer in circ.layers_forward():
+                layer.compile(N)
+    ok, _ = rec.attempt("live.move", [N, comp], compile_)
+    if not ok:
+        return
+    layers = list(circ.layers_forward())
+    cands = []
+    for layer in layers:
+        for g in layer.gates:
+            used = set(q for h in layer.gates if h is not g for q in h.qubits)
+            free = [q for q in range(N) if q not in used]
+            if len(free) > len(g.qubits):
+                cands.append((g, free))
+    if not cands:
+        return
+    g, free = cands[int(rng.integers(len(cands)))]
+    old = tuple(g.qubits)
+    for _ in range(20):
+        new = tuple(sorted(int(q) for q in rng.choice(free, size=len(old), replace=False)))
+        if new != old:
+            break
+    else:
+        return
+    i = [k for k, h in enumerate(gates) if h is g][0]
+    g.qubits = new
+    prog[i] = dict(prog[i], qubits=list(new))
+    ok, _ = rec.attempt("live.move", [N, comp, "recompile"], compile_)
+    if not ok:
+        return
+    # oracle: layers in order, gates of a layer in any order (they are disjoint)
+    mg, mp = O.map_identity(N)
+    for layer in circ.layers_forward():
+        for h in layer.gates:
+            k = [j for j, x in enumerate(gates) if x is h][0]
+            hg, hp = PR.spec_map_any(B, prog[k], N)
+            mg, mp = O.map_compose(mg, mp, hg, hp)
+    desc = {"N": N, "compiled": comp, "program": [PR.describe(x) for x in prog], "moved": [i, list(old), list(new)]}
+    for item in CC.inputs(B, N, rng, kinds=("list", "state")):
+        obj = CC.clone_input(B, item)
+        ok, _ = rec.attempt("live.move", desc, lambda: circ.forward(obj))
+        if ok:
+            got = CC.read(B, item[0], obj)
+            eg, ep = O.map_image_list(mg, mp, item[2], item[3])
+            rec.check("live.move", CC.same(got, (eg, ep, item[4])), dict(desc, kind=item[0]), True,
+                      expected=CC.show_rows((eg, ep, item[4])), observed=CC.show_rows(got))
